@@ -280,3 +280,8 @@ pub static SLOW_LANE: AtomicBool = AtomicBool::new(false);
 pub fn slow_lane() -> bool {
     SLOW_LANE.load(Ordering::Relaxed)
 }
+
+/// Decorrelates a scenario index from the shard count before it selects a case.
+pub fn mix(i: u64) -> u64 {
+    splitmix64(i ^ 0x51ed_270b) >> 3
+}
